@@ -10,6 +10,7 @@ DESCRIPTIONS = {
     'math.Ceil/Floor/Trunc/Round': 'SMT fp.roundToIntegral RTP/RTN/RTZ/RNA (IEEE 754); concrete arguments use the host libm',
     'math.Abs/IsNaN/IsInf/Inf/NaN': 'IEEE predicates / constants',
     'reflect.ValueOf(p).Elem().SetCap(n)': 'ValueOf wraps the pointer, Elem dereferences, SetCap panics unless len <= n <= cap else sets cap; other reflect calls are unsupported',
+    'sync/atomic typed values, sync.Mutex': 'sequentially consistent location per atomic value; every operation is a scheduling point; Load acquires, Store releases, Swap/Add/CompareAndSwap do both (Go memory model); Mutex Lock acquires / Unlock releases, schedules that attempt a held lock are skipped (covered by the schedule in which the attempt comes later)',
     'sync.Pool.Get/Put': 'linearizable multiset per pool: Put adds the item (nil ignored); Get forks over every pooled item (removed) and over New() (models items dropped by GC) or nil when New is unset',
     'append growth': 'go1.23 growslice capacity (nextslicecap + malloc size classes), validated against the native runtime in the self-test',
     'float->int': 'gc/amd64 CVTTSD2SI/CVTTSD2SQ lowering with the integer-indefinite value for out-of-range/NaN (validated natively in the self-test)',
@@ -266,3 +267,113 @@ TABLE = {
     '(*sync.Pool).Put': s_pool_put,
     '(*sync.Pool).Get': s_pool_get,
 }
+
+
+# ---- sync/atomic and sync.Mutex (scheduling points with acquire/release edges) --------------------
+import re as _re
+
+
+def _akey(p):
+    return ('atomic', p.obj, tuple(x if isinstance(x, int) else ('s', x.get_id()) for x in p.path))
+
+
+def _aget(eng, st, p, zero):
+    return st.ghost.get('atomics', {}).get(_akey(p), zero)
+
+
+def _aset(st, p, v):
+    d = dict(st.ghost.get('atomics', {}))
+    d[_akey(p)] = v
+    st.ghost['atomics'] = d
+
+
+def _atomic_zero(eng, fn, kind):
+    if kind == 'Pointer':
+        return NILPTR
+    if kind == 'Bool':
+        return False
+    return 0
+
+
+def _mk_atomic(kind, op):
+    bits = {'Int32': (32, True), 'Int64': (64, True), 'Uint32': (32, False), 'Uint64': (64, False), 'Uintptr': (64, False)}.get(kind)
+
+    def h(eng, st, fr, fn, args, ins):
+        p = args[0]
+        if p.obj is None:
+            eng.do_panic(st, 'nil atomic')
+        eng.sched_point(st, 'atomic.' + op)
+        zero = _atomic_zero(eng, fn, kind)
+        cur = _aget(eng, st, p, zero)
+        if op == 'Load':
+            eng.sync_acquire(st, _akey(p))
+            return _ret(st, ins, cur)
+        if op == 'Store':
+            _aset(st, p, args[1])
+            eng.sync_release(st, _akey(p))
+            return
+        eng.sync_acquire(st, _akey(p))
+        if op == 'Swap':
+            _aset(st, p, args[1])
+            _ret(st, ins, cur)
+        elif op == 'Add':
+            from .engine import wrap
+            if is_sym(cur) or is_sym(args[1]):
+                raise Unsupported('atomic add of symbolic values')
+            nv = wrap(cur + args[1], bits[0], bits[1])
+            _aset(st, p, nv)
+            _ret(st, ins, nv)
+        elif op == 'CompareAndSwap':
+            old, new = args[1], args[2]
+            if kind == 'Pointer':
+                same = eng.ptr_eq(cur, old)
+            else:
+                if is_sym(cur) or is_sym(old):
+                    raise Unsupported('atomic CAS on symbolic values')
+                same = cur == old
+            if same not in (True, False):
+                raise Unsupported('atomic CAS with symbolic pointer comparison')
+            if same:
+                _aset(st, p, new)
+            _ret(st, ins, bool(same))
+        else:
+            raise Unsupported('atomic op ' + op)
+        eng.sync_release(st, _akey(p))
+    return h
+
+
+def _mutex(op):
+    def h(eng, st, fr, fn, args, ins):
+        p = args[0]
+        eng.sched_point(st, 'Mutex.' + op)
+        held = st.ghost.get('atomics', {}).get(_akey(p))
+        me = st.ghost.get('cur_thread', 0)
+        if op in ('Lock', 'RLock'):
+            if held is not None and held != me:
+                raise PathEnd('pruned')   # the lock is taken later in some other schedule
+            _aset(st, p, me)
+            eng.sync_acquire(st, _akey(p))
+        elif op == 'TryLock':
+            ok = held is None
+            if ok:
+                _aset(st, p, me)
+                eng.sync_acquire(st, _akey(p))
+            _ret(st, ins, ok)
+        else:
+            _aset(st, p, None)
+            eng.sync_release(st, _akey(p))
+    return h
+
+
+_ATOMIC_RE = _re.compile(r'^\(\*sync/atomic\.(Pointer|Int32|Int64|Uint32|Uint64|Uintptr|Bool)(\[.*\])?\)\.(Load|Store|Swap|Add|CompareAndSwap)(\[.*\])?$')
+_MUTEX_RE = _re.compile(r'^\(\*sync\.(Mutex|RWMutex)\)\.(Lock|Unlock|RLock|RUnlock|TryLock)$')
+
+
+def resolve(name):
+    m = _ATOMIC_RE.match(name)
+    if m:
+        return _mk_atomic(m.group(1), m.group(3))
+    m = _MUTEX_RE.match(name)
+    if m:
+        return _mutex(m.group(2))
+    return None
